@@ -4,6 +4,7 @@
 //@harness idpf_level_on_path_b1_follow | complete | [input bit 1, evaluated child 1]  one tree level on the real generate_correction_word + eval_next (Field64 values; extend/convert uninterpreted, memoised): given party control bits t0 ^ t1 = 1, for the input bit both parties' new keys/control bits equal the generator's and still differ in the control bit, and out0 + out1 == programmed value; for the other bit keys and control bits coincide and out0 + out1 == 0
 //@harness idpf_level_on_path_b0_leave | complete | [input bit 0, evaluated child 1: leaving the path]  one tree level on the real generate_correction_word + eval_next (Field64 values; extend/convert uninterpreted, memoised): given party control bits t0 ^ t1 = 1, for the input bit both parties' new keys/control bits equal the generator's and still differ in the control bit, and out0 + out1 == programmed value; for the other bit keys and control bits coincide and out0 + out1 == 0
 //@harness idpf_level_on_path_b1_leave | complete | [input bit 1, evaluated child 0: leaving the path]  one tree level on the real generate_correction_word + eval_next (Field64 values; extend/convert uninterpreted, memoised): given party control bits t0 ^ t1 = 1, for the input bit both parties' new keys/control bits equal the generator's and still differ in the control bit, and out0 + out1 == programmed value; for the other bit keys and control bits coincide and out0 + out1 == 0
+//@harness idpf_value_select | complete | IdpfValue::conditional_select(a, b, c) == (c ? b : a) and IdpfValue::zero is the additive zero, for the blanket field impl (Field64, Field128) and for Poplar1IdpfValue<Field64>, all operands; conditional_negate(c) negates exactly when c (the value-correction step of eval_next adds the correction word exactly when the control bit is set)
 //@harness idpf_level_off_path | complete | one tree level off the input path: equal keys and equal control bits stay equal and out0 + out1 == 0 for both child bits (so zero propagates below the divergence point)
 #[cfg(kani)]
 #[allow(static_mut_refs)]
@@ -12,6 +13,37 @@ mod verif_c06 {
     use crate::field::verif_field_util::*;
     use crate::field::Field64;
     use crate::verif_common::*;
+
+    #[kani::proof]
+    #[kani::unwind(4)]
+    fn idpf_value_select() {
+        use crate::field::Field128;
+        use crate::vdaf::poplar1::Poplar1IdpfValue;
+        let c: bool = kani::any();
+        let ch = Choice::from(c as u8);
+        let (a, b) = (any64(), any64());
+        let r = <Field64 as IdpfValue>::conditional_select(&a, &b, ch);
+        assert!(raw64(r) == if c { raw64(b) } else { raw64(a) });
+        assert!(raw64(<Field64 as IdpfValue>::zero(&())) == 0);
+        let (a2, b2) = (any128(), any128());
+        let r2 = <Field128 as IdpfValue>::conditional_select(&a2, &b2, ch);
+        assert!(raw128(r2) == if c { raw128(b2) } else { raw128(a2) });
+        assert!(raw128(<Field128 as IdpfValue>::zero(&())) == 0);
+        let (x0, x1, y0, y1) = (any64(), any64(), any64(), any64());
+        let pa = Poplar1IdpfValue::new([x0, x1]);
+        let pb = Poplar1IdpfValue::new([y0, y1]);
+        let pr = <Poplar1IdpfValue<Field64> as IdpfValue>::conditional_select(&pa, &pb, ch);
+        let want = if c { Poplar1IdpfValue::new([y0, y1]) } else { Poplar1IdpfValue::new([x0, x1]) };
+        assert!(pr == want);
+        assert!(<Poplar1IdpfValue<Field64> as IdpfValue>::zero(&()) == Poplar1IdpfValue::new([mk64(0), mk64(0)]));
+        // conditional negation: out = c ? -out : out (raw Montgomery residues: -x == p - x for x != 0)
+        let mut n = a;
+        n.conditional_negate(ch);
+        let p = <crate::fp::FP64 as crate::fp::FieldParameters<u64>>::PRIME;
+        assert!(raw64(n) == if c && raw64(a) != 0 { p - raw64(a) } else { raw64(a) });
+        kani::cover!(c);
+        kani::cover!(!c);
+    }
 
     #[kani::proof]
     #[kani::unwind(18)]
